@@ -25,9 +25,11 @@ SHM = "/dev/shm" if os.path.isdir("/dev/shm") else "/tmp"
 
 
 def _stem(name: str) -> str:
-    for suf in (".pyi", ".py"):
+    for suf in (".pyi", ".py", ".pyc", ".pyd", ".so"):
         if name.endswith(suf):
-            return name[: -len(suf)]
+            base = name[: -len(suf)]
+            # compiled modules look like `name.cpython-312-x86_64-linux-gnu.so`
+            return base.split(".", 1)[0] if suf in (".so", ".pyd", ".pyc") else base
     return name
 
 
@@ -37,8 +39,8 @@ def _order(names: list[str], schedule: dict, rel: str) -> list[str]:
         # Two schedules with the same base differ only in which file of each (module, stubs) pair is met first.
         stems = _order(sorted({_stem(n) for n in names}), schedule["base"], rel)
         rank = {st: i for i, st in enumerate(stems)}
-        first = ".pyi" if schedule["stub_first"] else ".py"
-        return sorted(names, key=lambda n: (rank[_stem(n)], 0 if n.endswith(first) and (first == ".pyi" or not n.endswith(".pyi")) else 1, n))
+        stub_first = bool(schedule["stub_first"])
+        return sorted(names, key=lambda n: (rank[_stem(n)], 0 if n.endswith(".pyi") == stub_first else 1, n))
     mode = schedule.get("mode", "sorted")
     if mode == "sorted":
         return sorted(names)
